@@ -162,3 +162,16 @@ check("C10", "model_checking",
       "judges every read (one row per id, nothing lost or invented, last synchronisation wins, data identical, problem definition).",
       "trusted: TLC; the canonical bit-exact fingerprint (the encode/decode fidelity itself is decided by fingerprint equality, not by TLA+); "
       "SQLite itself", "TLC exhaustive store models + TLC-simulated histories replayed on real SQLite + TLC trace validation", "DESIGN.md 5/C10")
+
+check("C11", "fault_enumeration",
+      "Store.tla gives every connection its own transaction (Exec buffers, Commit applies atomically and only then returns), an exclusive lock "
+      "and a Crash action enabled in every state; TLC checks ReturnedAreDurable / NoFutureRows / LockExclusive over all interleavings of two "
+      "connections with a crash anywhere, and that the named deviation batched-commit violates it. Fault enumeration on the real code: a dry "
+      "run counts the crash points (objective entry / exit, before / after every SQL statement and commit that artap issues, via a proxy "
+      "around sqlite3.connect) of four scenarios (serial batch, two-thread batch, NSGA-II run, bulk sync_all larger than SQLite's page "
+      "cache); one forked child per point dies there with os._exit, plus SIGKILL at random instants; the file is reopened through "
+      "ProblemViewDataStore, raw SQL and PRAGMA integrity_check; StoreTrace validates: readable, one row per id, every synchronisation that "
+      "had returned is present with its data, no partial row, costs match the row's vector. Quick: <=45 points per scenario.",
+      "trusted: TLC; process death = os._exit / SIGKILL (page cache survives, power loss not modelled); crashes inside SQLite's own C code are "
+      "reached only by the random SIGKILLs and the bulk-transaction scenario", "TLC crash model + crash-point enumeration on real SQLite + TLC trace validation",
+      "DESIGN.md 5/C11")
